@@ -260,7 +260,16 @@ class Inliner:
 
   def _nested_helper_call(self, st, cls, owner_fn):
     """First call to an inlinable new helper that is evaluated unconditionally inside statement st."""
-    roots = [st.value] if getattr(st, 'value', None) is not None else []
+    if isinstance(st, ast.For):
+      roots = [st.iter]
+    elif isinstance(st, ast.If):
+      roots = [st.test]
+    elif isinstance(st, ast.With):
+      roots = [it.context_expr for it in st.items]
+    elif isinstance(st, ast.Raise):
+      roots = [st.exc] if st.exc is not None else []
+    else:
+      roots = [st.value] if getattr(st, 'value', None) is not None else []
     stack = list(roots)
     while stack:
       n = stack.pop(0)
@@ -292,7 +301,7 @@ class Inliner:
         return False
     return True
 
-  def _bind(self, fn, call, selfexpr, caller_names, free=()):
+  def _bind(self, fn, call, selfexpr, caller_names, free=(), dead_after=()):
     a = fn.args
     params = [x.arg for x in a.posonlyargs + a.args]
     is_static = any(ast.unparse(d) == 'staticmethod' for d in fn.decorator_list)
@@ -325,6 +334,10 @@ class Inliner:
     for p, e in bound.items():
       if _simple(e) and p not in stored:
         mapping[p] = e
+      elif isinstance(e, ast.Name) and e.id in dead_after and e.id not in stored and list(bound.values()).count(e) == 1 \
+          and sum(1 for v in bound.values() if isinstance(v, ast.Name) and v.id == e.id) == 1:
+        # the argument variable is not read again by the caller: the parameter can simply be that variable
+        renames[p] = e.id
       else:
         nm = p if (p not in caller_names or (isinstance(e, ast.Name) and e.id == p)) else p + '__in'
         if isinstance(e, ast.Name) and e.id == nm:
@@ -364,7 +377,12 @@ class Inliner:
       if all(isinstance(e, ast.Name) for e in tn):
         used = {x.id for x in ast.walk(call) if isinstance(x, ast.Name)}
         free = {e.id for e in tn} - used
-    b = self._bind(fn, call, selfexpr, caller_names, free)
+    dead_after = set()
+    if caller_fn is not None:
+      for a_ in list(call.args) + [k_.value for k_ in call.keywords]:
+        if isinstance(a_, ast.Name) and not _used_after(caller_fn, st, a_.id):
+          dead_after.add(a_.id)
+    b = self._bind(fn, call, selfexpr, caller_names, free, dead_after)
     if b is None:
       return None
     mapping, pre, renames = b
@@ -445,7 +463,7 @@ class Inliner:
                   body.insert(i, asg)
                   st = asg
             new = self._expand(st, cls, owner_fn)
-            if new is None and isinstance(st, (ast.Return, ast.Assign, ast.Expr, ast.AugAssign)):
+            if new is None and isinstance(st, (ast.Return, ast.Assign, ast.Expr, ast.AugAssign, ast.For, ast.If, ast.With, ast.Raise)):
               # a helper call nested in the statement's expression (evaluated unconditionally): hoist it
               c = self._nested_helper_call(st, cls, owner_fn)
               if c is not None:
@@ -461,7 +479,17 @@ class Inliner:
                       return ast.copy_location(ast.Name(id=tmpn, ctx=ast.Load()), n)
                     self.generic_visit(n)
                     return n
-                body[i] = Rep().visit(st)
+                if isinstance(st, (ast.For, ast.If, ast.With)):
+                  # only the header expression is rewritten, not the nested statements
+                  if isinstance(st, ast.For):
+                    st.iter = Rep().visit(st.iter)
+                  elif isinstance(st, ast.If):
+                    st.test = Rep().visit(st.test)
+                  else:
+                    for it in st.items:
+                      it.context_expr = Rep().visit(it.context_expr)
+                else:
+                  body[i] = Rep().visit(st)
                 body.insert(i, asg)
                 st = asg
                 new = self._expand(st, cls, owner_fn)
@@ -720,20 +748,31 @@ def _end(n):
 
 
 def _used_after(fn, loop, name):
-  """`name` is read after `loop` (lexically later in the function, or anywhere in an enclosing loop)."""
-  scope = fn if fn is not None else None
-  if scope is None:
+  """`name` may be read after `loop` with the value the loop left in it."""
+  if fn is None:
     return True
   e = _end(loop)
-  for n in ast.walk(scope):
-    if isinstance(n, ast.Name) and n.id == name and isinstance(n.ctx, ast.Load) and _pos(n) > e:
-      return True
-  # an enclosing loop can bring control back to code before the loop
-  for n in ast.walk(scope):
+  inner = {id(x) for x in ast.walk(loop)}
+  # loads shielded by a later re-binding construct that encloses them (for target / comprehension target)
+  shielded = set()
+  for n in ast.walk(fn):
+    if id(n) in inner:
+      continue
+    if isinstance(n, ast.For) and _pos(n) > e and name in {x.id for x in ast.walk(n.target) if isinstance(x, ast.Name)}:
+      for st in n.body:
+        shielded |= {id(x) for x in ast.walk(st)}
+    elif isinstance(n, (ast.ListComp, ast.SetComp, ast.DictComp, ast.GeneratorExp)):
+      if any(name in {x.id for x in ast.walk(g.target) if isinstance(x, ast.Name)} for g in n.generators):
+        shielded |= {id(x) for x in ast.walk(n)}
+        for g in n.generators[:1]:
+          shielded -= {id(x) for x in ast.walk(g.iter)}
+  in_enclosing_loop = False
+  for n in ast.walk(fn):
     if isinstance(n, (ast.For, ast.While)) and n is not loop and any(x is loop for x in ast.walk(n)):
-      inside = [x for x in ast.walk(n) if isinstance(x, ast.Name) and x.id == name and isinstance(x.ctx, ast.Load)
-                and not any(x is y for y in ast.walk(loop))]
-      if inside:
+      in_enclosing_loop = True
+  for n in ast.walk(fn):
+    if isinstance(n, ast.Name) and n.id == name and isinstance(n.ctx, ast.Load) and id(n) not in inner and id(n) not in shielded:
+      if _pos(n) > e or in_enclosing_loop:
         return True
   return False
 
@@ -1020,17 +1059,60 @@ def _nested_scopes(fn):
       yield n
 
 
-def _writes_to(st, names):
-  """st (whole subtree) re-binds or mutates one of `names`."""
+def _read_paths(e):
+  """Dotted attribute paths (maximal chains rooted at a name) and bare names read by expression e."""
+  out = set()
+  inner = set()
+  for n in ast.walk(e):
+    if isinstance(n, ast.Attribute):
+      r, parts = n, []
+      while isinstance(r, ast.Attribute):
+        parts.append(r.attr)
+        inner.add(id(r.value))
+        r = r.value
+      if isinstance(r, ast.Name) and id(n) not in inner:
+        out.add('.'.join([r.id] + parts[::-1]))
+  for n in ast.walk(e):
+    if isinstance(n, ast.Name) and id(n) not in inner:
+      out.add(n.id)
+  return out
+
+
+def _path_of(n):
+  parts = []
+  while isinstance(n, ast.Attribute):
+    parts.append(n.attr)
+    n = n.value
+  if isinstance(n, ast.Name):
+    return '.'.join([n.id] + parts[::-1])
+  return None
+
+
+def _writes_to(st, names, paths=None):
+  """st (whole subtree) re-binds or mutates one of `names` (attribute stores are
+  compared by dotted path against `paths`, the paths the expression reads, if given)."""
+  def clash(p):
+    if paths is None:
+      return p.split('.')[0] in names
+    return any(r == p or r.startswith(p + '.') or p.startswith(r + '.') for r in paths)
   for n in ast.walk(st):
     if isinstance(n, ast.Name) and n.id in names and isinstance(n.ctx, (ast.Store, ast.Del)):
       return True
-    if isinstance(n, (ast.Subscript, ast.Attribute)) and isinstance(n.ctx, (ast.Store, ast.Del)):
-      r = n
-      while isinstance(r, (ast.Subscript, ast.Attribute)):
-        r = r.value
-      if isinstance(r, ast.Name) and r.id in names:
+    if isinstance(n, ast.Attribute) and isinstance(n.ctx, (ast.Store, ast.Del)):
+      p = _path_of(n)
+      if p is None:
+        continue
+      if clash(p):
         return True
+      continue
+    if isinstance(n, ast.Subscript) and isinstance(n.ctx, (ast.Store, ast.Del)):
+      r = n
+      while isinstance(r, ast.Subscript):
+        r = r.value
+      p = _path_of(r) if isinstance(r, (ast.Attribute, ast.Name)) else None
+      if p is not None and clash(p):
+        return True
+      continue
     if isinstance(n, ast.Call) and isinstance(n.func, ast.Attribute) and n.func.attr in _MUTATORS:
       r = n.func.value
       while isinstance(r, (ast.Subscript, ast.Attribute)):
@@ -1038,6 +1120,40 @@ def _writes_to(st, names):
       if isinstance(r, ast.Name) and r.id in names:
         return True
   return False
+
+
+def _readonly_uses(span, t, E):
+  """If E builds a fresh mutable object, every use of t in span must only read it
+  (iterate, test membership, take len / an element): then evaluating E once per use is equivalent."""
+  fresh = isinstance(E, (ast.ListComp, ast.SetComp, ast.DictComp, ast.List, ast.Dict, ast.Set)) or \
+      (isinstance(E, ast.Call) and isinstance(E.func, ast.Name) and E.func.id in ('list', 'dict', 'set', 'sorted'))
+  if not fresh:
+    return True
+  parent = {}
+  for x in span:
+    for pn in ast.walk(x):
+      for c in ast.iter_child_nodes(pn):
+        parent[c] = pn
+  for x in span:
+    for n in ast.walk(x):
+      if isinstance(n, ast.Name) and n.id == t and isinstance(n.ctx, ast.Load):
+        pa = parent.get(n)
+        ok = False
+        if isinstance(pa, (ast.For, ast.comprehension)) and pa.iter is n:
+          ok = True
+        elif isinstance(pa, ast.Compare) and n in pa.comparators and all(isinstance(o, (ast.In, ast.NotIn)) for o in pa.ops):
+          ok = True
+        elif isinstance(pa, ast.Call) and isinstance(pa.func, ast.Name) and pa.func.id in ('len', 'sorted', 'list', 'tuple', 'set', 'frozenset', 'enumerate', 'zip', 'any', 'all', 'bool') and n in pa.args:
+          ok = True
+        elif isinstance(pa, ast.Subscript) and pa.value is n and isinstance(pa.ctx, ast.Load):
+          ok = True
+        elif isinstance(pa, (ast.If, ast.While)) and pa.test is n:
+          ok = True
+        elif isinstance(pa, ast.UnaryOp) and isinstance(pa.op, ast.Not):
+          ok = True
+        if not ok:
+          return False
+  return True
 
 
 def _header_nodes(st):
@@ -1129,7 +1245,8 @@ def _inline_one(fn, refnames, params):
         last = max(i for i, x in enumerate(after) if any(n in loads for n in ast.walk(x)))
         span = after[:last + 1]
         names = _all_names(E)
-        if not any(_writes_to(x, names) for x in span):
+        if not any(_writes_to(x, names, _read_paths(E)) for x in span) and not any(_writes_to(x, {t}) for x in span) \
+            and _readonly_uses(span, t, E):
           # calls in between may change attributes / containers E reads
           deep = any(isinstance(n, (ast.Attribute, ast.Subscript, ast.Call)) for n in ast.walk(E))
           has_attr = any(isinstance(n, ast.Attribute) and not (isinstance(getattr(n, 'ctx', None), ast.Load) and False) for n in ast.walk(E)
@@ -1214,6 +1331,87 @@ def _rewrite_flag_chain(body_list):
   return changed
 
 
+def _rewrite_star_unpack(body_list):
+  """A = E[:-1]; B = E[-1]  (E pure, identical)   ->   *A, B = E"""
+  changed = 0
+  k = 0
+  while k + 1 < len(body_list):
+    a, b = body_list[k], body_list[k + 1]
+    k += 1
+    if not (isinstance(a, ast.Assign) and isinstance(b, ast.Assign) and len(a.targets) == 1 and len(b.targets) == 1
+            and isinstance(a.value, ast.Subscript) and isinstance(b.value, ast.Subscript)):
+      continue
+    sa, sb = a.value, b.value
+    if ast.unparse(sa.value) != ast.unparse(sb.value) or not _pure(sa.value):
+      continue
+    if not (isinstance(sa.slice, ast.Slice) and sa.slice.lower is None and sa.slice.step is None and sa.slice.upper is not None
+            and ast.unparse(sa.slice.upper) == '-1' and ast.unparse(sb.slice) == '-1'):
+      continue
+    ta, tb = a.targets[0], b.targets[0]
+    if not isinstance(ta, (ast.Name, ast.Attribute)) or not isinstance(tb, (ast.Name, ast.Attribute)):
+      continue
+    pa = _path_of(ta) if isinstance(ta, ast.Attribute) else ta.id
+    if pa is None or any(r == pa or r.startswith(pa + '.') for r in _read_paths(sa.value)):
+      continue
+    ta2, tb2 = copy.deepcopy(ta), copy.deepcopy(tb)
+    new = ast.Assign(targets=[ast.Tuple(elts=[ast.Starred(value=ta2, ctx=ast.Store()), tb2], ctx=ast.Store())], value=sa.value)
+    ast.copy_location(new, a)
+    ast.fix_missing_locations(new)
+    k -= 1
+    body_list[k:k + 2] = [new]
+    changed += 1
+  return changed
+
+
+class _ExprForms(ast.NodeTransformer):
+  """X.rpartition(S)[2] -> X.rsplit(S, 1)[-1];  X.partition(S)[0] -> X.split(S, 1)[0]"""
+
+  def __init__(self):
+    self.n = 0
+
+  def visit_Subscript(self, n):
+    self.generic_visit(n)
+    v = n.value
+    if isinstance(v, ast.Call) and isinstance(v.func, ast.Attribute) and len(v.args) == 1 and not v.keywords and isinstance(n.ctx, ast.Load):
+      idx = ast.unparse(n.slice)
+      if v.func.attr == 'rpartition' and idx in ('2', '-1'):
+        v.func.attr = 'rsplit'
+        v.args.append(ast.Constant(value=1))
+        n.slice = ast.UnaryOp(op=ast.USub(), operand=ast.Constant(value=1))
+        self.n += 1
+      elif v.func.attr == 'partition' and idx in ('0', '-3'):
+        v.func.attr = 'split'
+        v.args.append(ast.Constant(value=1))
+        n.slice = ast.Constant(value=0)
+        self.n += 1
+      ast.fix_missing_locations(n)
+    return n
+
+
+def _rewrite_inplace_sort(body_list):
+  """x = <fresh list>; x.sort(**kw)   ->   x = sorted(<...>, **kw)"""
+  changed = 0
+  k = 0
+  while k + 1 < len(body_list):
+    a, b = body_list[k], body_list[k + 1]
+    k += 1
+    if not (isinstance(a, ast.Assign) and len(a.targets) == 1 and isinstance(a.targets[0], ast.Name) and isinstance(b, ast.Expr)
+            and isinstance(b.value, ast.Call) and isinstance(b.value.func, ast.Attribute) and b.value.func.attr == 'sort'
+            and isinstance(b.value.func.value, ast.Name) and b.value.func.value.id == a.targets[0].id and not b.value.args):
+      continue
+    v = a.value
+    fresh = isinstance(v, (ast.ListComp, ast.List)) or (isinstance(v, ast.Call) and isinstance(v.func, ast.Name) and v.func.id in ('list', 'sorted'))
+    if not fresh or any(a.targets[0].id in _all_names(k_.value) for k_ in b.value.keywords):
+      continue
+    inner = v.args[0] if isinstance(v, ast.Call) and v.func.id == 'list' and len(v.args) == 1 and not v.keywords else v
+    a.value = ast.Call(func=ast.Name(id='sorted', ctx=ast.Load()), args=[inner], keywords=b.value.keywords)
+    ast.fix_missing_locations(a)
+    del body_list[k]
+    k -= 1
+    changed += 1
+  return changed
+
+
 def _rewrite_or_default(body_list):
   """`if not X: X = E`  /  `X = X if X else E`  ->  `X = X or E`."""
   changed = 0
@@ -1247,7 +1445,9 @@ def _rewrite_or_default(body_list):
 
 
 def idioms(tree):
-  n = 0
+  ef = _ExprForms()
+  ef.visit(tree)
+  n = ef.n
   for _ in range(3):
     c = 0
     for owner, fld, body in list(_bodies(tree)):
@@ -1258,6 +1458,8 @@ def idioms(tree):
       c += _rewrite_tuple_assign(body)
       c += _rewrite_or_default(body)
       c += _rewrite_flag_chain(body)
+      c += _rewrite_star_unpack(body)
+      c += _rewrite_inplace_sort(body)
     n += c
     if not c:
       break
